@@ -28,6 +28,8 @@ pub enum SymbolicExpression<CF> {
     Mul { x: Box<SymbolicExpression<CF>>, y: Box<SymbolicExpression<CF>>, degree_multiple: usize },
 }
 pub use SymbolicExpression as SE;
+/// p3-air's degree bookkeeping (an upper bound of the degree in the trace columns): it says NOTHING about the value -- public values, challenges and selectors have degree 0
+impl<CF> SymbolicExpression<CF> { #[verifier::external_body] pub fn degree_multiple(&self) -> (r: usize) { unimplemented!() } }
 
 // ---------------------------------------------------------------- types cut from /repo
 @@TYPES@@
@@ -415,6 +417,7 @@ pub proof fn lemma_arm_bin<CF>(t0: Seq<W<'_, CF>>, t3: Seq<W<'_, CF>>, ns: Seq<S
     u.text('''verus! {
 pub struct RecursiveLagrangeSelectors { pub row_selectors: RowSelectorsTargets, pub inv_vanishing: Target }
 pub struct ExtExpr<CF> { pub _p: core::marker::PhantomData<CF> }                                                         // SymbolicExpressionExt: opaque here
+impl<CF> ExtExpr<CF> { #[verifier::external_body] pub fn degree_multiple(&self) -> (r: usize) { unimplemented!() } }
 pub uninterp spec fn den_ext<CF, F: Field>(lv: LeafVals<F>, e: ExtExpr<CF>) -> F;
 /// native constraint folder:  acc = acc * alpha + c   over the constraints in the order the AIR emits them (base and extension alike)
 pub open spec fn fold_alpha<F: Field>(alpha: F, cs: Seq<F>) -> F decreases cs.len() {
